@@ -390,6 +390,8 @@ func genConc(r *lib.Rng, tier string) *Case {
 		emit(Op{K: "array", Xs: xs, Spare: spare(r)})
 	}
 	wide := r.Chance(1, 8) // a merge of more than maxSelectNum streams (reflect.Select path)
+	// ... and one of 4-5 streams (the largest select statements of receiveN, next to the threshold)
+	mid := !wide && r.Chance(1, 8)
 	nb := 1 + r.Intn(maxBuild)
 	for i := 0; i < nb && len(sh.hs) < maxH; i++ {
 		live := liveHandles(sh, nil)
@@ -400,7 +402,7 @@ func genConc(r *lib.Rng, tier string) *Case {
 			emit(genConvOp(r, live[r.Intn(len(live))]))
 		default:
 			if len(live) >= 2 {
-				n := 2 + r.Intn(2)
+				n := []int{2, 2, 2, 3, 3, 3, 4, 5}[r.Intn(8)]
 				if n > len(live) {
 					n = len(live)
 				}
@@ -408,12 +410,16 @@ func genConc(r *lib.Rng, tier string) *Case {
 			}
 		}
 	}
-	if wide {
+	if wide || mid {
+		lo := 6
+		if mid {
+			lo = 4
+		}
 		live := liveHandles(sh, nil)
 		h := live[r.Intn(len(live))]
-		emit(Op{K: "copy", H: h, N: 6 + r.Intn(2)})
+		emit(Op{K: "copy", H: h, N: lo + r.Intn(2)})
 		live = liveHandles(sh, nil)
-		n := 6 + r.Intn(2)
+		n := lo + r.Intn(2)
 		if n > len(live) {
 			n = len(live)
 		}
